@@ -167,7 +167,23 @@ func main() {
 		}
 	}
 
-	solve(all, eng.timeout)
+	solve(all, eng.timeout, 14)
+	// second pass: obligations that were not decided within the per-query limit are retried with four times the
+	// limit and little parallelism (solver time varies with machine load; an undecided query is not a refutation)
+	var retry []*Obligation
+	for _, ob := range all {
+		if ob.Kind == "proof" && ob.Result != "unsat" && ob.Result != "sat" && ob.SMT != "" {
+			ob.Result = ""
+			retry = append(retry, ob)
+		}
+	}
+	if len(retry) > 0 && len(retry) <= 40 {
+		solve(retry, eng.timeout*4, 5)
+	} else {
+		for _, ob := range retry {
+			ob.Result = "timeout"
+		}
+	}
 
 	// report
 	known := loadKnown(filepath.Join(*verif, "known_findings.txt"))
@@ -394,14 +410,14 @@ var solvers = []solverSpec{
 	}},
 }
 
-func solve(obs []*Obligation, timeout int) {
+func solve(obs []*Obligation, timeout int, par int) {
 	tmp, err := os.MkdirTemp("", "govc-smt-")
 	if err != nil {
 		fatal("%v", err)
 	}
 	defer os.RemoveAll(tmp)
 	var wg sync.WaitGroup
-	sem := make(chan struct{}, 14)
+	sem := make(chan struct{}, par)
 	for i, ob := range obs {
 		if ob.Result != "" {
 			continue
